@@ -215,13 +215,8 @@ fn check_filter(text: &[u8], skip: &[bool]) {
     unsafe {
         assert!(HEX_CALLS == 1, "exactly one decode of the filtered text");
         assert!(HEX_IN_LEN == nk - start, "text handed to the decoder has the wrong length");
-        let mut i = 0;
-        while i < 16 {
-            if i < nk - start {
-                assert!(HEX_IN[i] == kept[start + i], "whitespace filter / prefix stripping changed the digits");
-            }
-            i += 1;
-        }
+        assert!(hdwallet::__verif_common::bytes_eq_sym::<1>(&HEX_IN[..nk - start], &kept[start..nk]),
+            "whitespace filter / prefix stripping changed the digits");
         kani::cover!(start == 2 && nk > 2, "prefix stripped");
         kani::cover!(start == 0 && nk == text.len() && nk > 0, "nothing to strip");
         kani::cover!(nk + 2 <= text.len(), "whitespace removed");
@@ -255,14 +250,14 @@ macro_rules! filter_harness {
     )*};
 }
 filter_harness! {
-    c19_filter_ascii_0 = 0, 18; c19_filter_ascii_2 = 2, 18; c19_filter_ascii_3 = 3, 18; c19_filter_ascii_4 = 4, 18;
-    c19_filter_ascii_5 = 5, 18; c19_filter_ascii_6 = 6, 18; c19_filter_ascii_8 = 8, 18;
+    c19_filter_ascii_0 = 0, 4; c19_filter_ascii_2 = 2, 5; c19_filter_ascii_3 = 3, 6; c19_filter_ascii_4 = 4, 7;
+    c19_filter_ascii_5 = 5, 8; c19_filter_ascii_6 = 6, 9; c19_filter_ascii_8 = 8, 11;
 }
 
 // Unicode whitespace (U+2003, three bytes) at a symbolic position among four ASCII bytes
 hdwallet::verif_harness! {
     #[kani::stub(::hex::decode, hex_decode_stub)]
-    #[kani::unwind(18)]
+    #[kani::unwind(10)]
     fn c19_filter_unicode_ws() {
         let a: [u8; 4] = kani::any();
         let pos: usize = kani::any();
